@@ -85,11 +85,20 @@ impl TypeSpace {
                             .cloned()
                             .collect()
                     });
-                    let ss = Schema::Object(SchemaObject {
+                    let mut ss = SchemaObject {
                         instance_type: Some(SingleOrVec::from(*other_type)),
                         enum_values,
                         ..schema.clone()
-                    });
+                    };
+                    // A `null` default is the default of the Option (`None`);
+                    // it is not a value of the inner type and must not be
+                    // validated against it.
+                    if let Some(inner_metadata) = ss.metadata.as_mut() {
+                        if inner_metadata.default == Some(serde_json::Value::Null) {
+                            inner_metadata.default = None;
+                        }
+                    }
+                    let ss = Schema::Object(ss);
                     // An Option type won't usually get a name--unless one is
                     // required (in which case we'll generated a newtype
                     // wrapper to give it a name). In such a case, we invent a
